@@ -123,7 +123,23 @@ pub const SPELLINGS: [(&str, Unit); 25] = [
     ("nanosecond", Unit::Nanosecond),
     ("nanoseconds", Unit::Nanosecond),
 ];
-pub const VALUES: [&str; 12] = ["0", "1", "1.5", "10.598", "0.000001", "59", "60", "999", "1000", "36525", "2.25", "0.5"];
+pub const VALUES: [&str; 30] = [
+    "0", "1", "1.5", "10.598", "0.000001", "59", "60", "999", "1000", "36525", "2.25", "0.5",
+    // decimals whose nearest double lies just below them (4.1 = 4.0999999999999996...), and whole counts whose
+    // product with the unit needs more than 53 bits
+    "4.1", "8.2", "32.3", "64.1", "2.3", "0.57", "1.13", "0.513988343", "0.1", "0.7", "9007199254740993", "123456789012345678", "72069679697923", "576870618973", "4612397135", "307446615", "20497649", "3652425",
+];
+
+/// the value a decimal text denotes, in nanoseconds of the unit, truncated toward zero: exact integer arithmetic
+pub fn decimal_ns(text: &str, unit_ns: i128) -> i128 {
+    let (whole, frac) = match text.split_once('.') {
+        Some((w, f)) => (w, f),
+        None => (text, ""),
+    };
+    let w: i128 = if whole.is_empty() { 0 } else { whole.parse().unwrap() };
+    let f: i128 = if frac.is_empty() { 0 } else { frac.parse().unwrap() };
+    w * unit_ns + f * unit_ns / 10i128.pow(frac.len() as u32)
+}
 
 /// one spelling: "<value> <unit>" with an optional leading '-'
 pub fn j_spelling(si: usize, vi: usize, neg: bool, out: &mut Local) {
@@ -131,7 +147,12 @@ pub fn j_spelling(si: usize, vi: usize, neg: bool, out: &mut Local) {
     let text = format!("{}{} {}", if neg { "-" } else { "" }, VALUES[vi], sp);
     let args = vec![si.to_string(), vi.to_string(), neg.to_string()];
     let x: f64 = VALUES[vi].parse().unwrap();
-    let mag = unit_float_model(x, unit).unwrap();
+    // "with the value they denote": the decimal text itself, not its nearest double times the unit
+    let mag = decimal_ns(VALUES[vi], unit_ns(unit));
+    if mag > 10_000 * 36_525 * NS_DAY / 100 {
+        out.dc(0); // beyond the statement's 10 000 years
+        return;
+    }
     let want = if neg { -mag } else { mag };
     let r = guard(|| Duration::from_str(&text).map(alpha));
     match r {
@@ -144,7 +165,10 @@ pub fn j_spelling(si: usize, vi: usize, neg: bool, out: &mut Local) {
         // "hr", "minutes" and "sec" are accepted by the code today but are not among the documented spellings: a
         // refusal is a don't-care, a wrong value is not
         Ok(Err(_)) if ["hr", "minutes", "sec"].contains(&sp) => out.dc(1),
-        Ok(g) => out.viol("c11.spelling", format!("wrong,{sp},{}", if neg { "negative" } else { "positive" }), args, format!("{text:?} -> {want}"), format!("{g:?}")),
+        Ok(g) => {
+            let through_f64 = g.as_ref().ok() == Some(&(if neg { -1 } else { 1 } * unit_float_model(x, unit).unwrap_or(0)));
+            out.viol("c11.spelling", format!("wrong,{sp},{}{}", if neg { "negative" } else { "positive" }, if through_f64 { ",value-of-the-nearest-double-times-the-unit" } else { "" }), args, format!("{text:?} -> {want}"), format!("{g:?}"))
+        }
         Err(p) => out.viol("c11.spelling", format!("panic:{},{sp}", p.class()), args, "no panic".into(), format!("{} {}", p.loc, p.msg)),
     }
 }
@@ -235,10 +259,11 @@ pub fn run(rep: &mut Report) {
     dl.sort();
     dl.dedup();
     rep.bound("durations", dl.len() as u64);
-    rep.rule = "durations: every unit multiple k*U +- 0..3 ns for the seven units and ~100 values of k, both signs, the dense windows round 0 and +-1..3 centuries, all within 10 000 years; each is decomposed, subdivided, displayed, parsed back, serialized to JSON and back, and read through Epoch::hours()..nanoseconds(). Parser: 25 unit spellings x 12 values x sign; all 127 component subsets x 3 value sets x sign; offsets [+-]HH:MM, [+-]HHMM, [+-]HH, [+-]HH:MM:SS, [+-]HHMMSS for all 24 x 60 (x {0, 59} s). Oracle: integer decomposition and a reference renderer. Non-trivial = within 3 ns of a whole number of a unit, or negative.".into();
+    rep.rule = "durations: every unit multiple k*U +- 0..3 ns for the seven units and ~100 values of k, both signs, the dense windows round 0 and +-1..3 centuries, all within 10 000 years; each is decomposed, subdivided, displayed, parsed back, serialized to JSON and back, and read through Epoch::hours()..nanoseconds(). Parser: 25 unit spellings x 30 values (incl. decimals whose nearest double is below them and whole counts needing more than 53 bits) x sign; all 127 component subsets x 3 value sets x sign; offsets [+-]HH:MM, [+-]HHMM, [+-]HH, [+-]HH:MM:SS, [+-]HHMMSS for all 24 x 60 (x {0, 59} s). Oracle: integer decomposition and a reference renderer. Non-trivial = within 3 ns of a whole number of a unit, or negative.".into();
     rep.assumptions = vec!["the sign of a positive decomposition may be 0 or +1 (the repository's suite pins 0)".into(), "forms without a space between value and unit are undocumented: not exercised".into()];
     sweep(rep, "c11.text", dl.len() as u64, |i, out| j_text(dl[i as usize], out));
-    sweep(rep, "c11.spelling", 25 * 12 * 2, |i, out| j_spelling((i / 24) as usize, ((i / 2) % 12) as usize, i % 2 == 1, out));
+    let nv = VALUES.len() as u64;
+    sweep(rep, "c11.spelling", 25 * nv * 2, |i, out| j_spelling((i / (2 * nv)) as usize, ((i / 2) % nv) as usize, i % 2 == 1, out));
     sweep(rep, "c11.combo", 127 * 3 * 2, |i, out| j_combo((i / 6) as u32 + 1, ((i / 2) % 3) as usize, i % 2 == 1, out));
     sweep(rep, "c11.offset", 5 * 2 * 24 * 60 * 2, |i, out| {
         let ss = if i % 2 == 0 { 0 } else { 59 };
